@@ -188,7 +188,9 @@ def attach_path(block, path):
 def decode(block, encoding, errors, line_delimiter):
     # blocksize is not None branch
     text = block.decode(encoding, errors)
-    if line_delimiter in [None, "", "\n", "\r", "\r\n"]:
+    if line_delimiter in [None, "", "\n"]:
+        # Not for "\r" and "\r\n": StringIO translates every "\n" of its
+        # initial value into that newline, which would alter the text
         lines = io.StringIO(text, newline=line_delimiter)
         return list(lines)
     else:
